@@ -3,9 +3,14 @@ the real implementation on them, and printing as Gallina literals of M_Frames.
 
 Descriptor (JSON):
   nf, no                       number of frames / objects
-  frames  {f: ["plain"] | ["genof", o]}       how the real python frame is obtained
+  frames  {f: ["plain"] | ["genof", o] | ["samecode", f0]}   how the real python frame is obtained;
+              ["samecode", f0]: a second live frame of the SAME function (code object) as plain frame f0 < f.
+              elaborate_frame dispatches on the code object, so both frames share ONE hook row: the row of
+              the representative code_rep(f) (= f0); see eff_elab.  Frames stay distinct ids in the model.
   unwrap  {o: ["none"] | ["one", item] | ["seq", [item|null...], "tuple"|"list"]
-              | ["iter", [item...], raises] | ["raise"] | ["gen", f_own, item|null]}
+              | ["iter", [item...], raises] | ["raise"] | ["gen", f_own, item|null]
+              | ["gen2", f_own, o1]}   (a second instance of the generator function of "gen" object o1 > o:
+                                        same code object, same delegation target, own frame f_own)
   elab    {f: [kind, payload, prehide]}  kind in none|seq|one|raise ; payload items are
               ["I", item] | ["N"] (the next_inner argument) | ["Z"] (None)
   attr    {o: {"wref": bool}}   ("gen" objects are real generators: wref, gent, own frame)
@@ -29,9 +34,102 @@ class Boom(Exception):
         self.kind, self.ident = kind, ident
 
 
+# ----------------------------------------------------------------- frames that share a code object
+def code_rep(case, f):
+    """Frame id whose elab row is the hook of f's code object."""
+    fr = case["frames"].get(str(f), ["plain"])
+    if fr[0] == "samecode":
+        return fr[1]
+    if fr[0] == "genof":
+        u = case["unwrap"].get(str(fr[1]))
+        if u and u[0] == "gen2":
+            return case["unwrap"][str(u[2])][1]
+    return f
+
+
+def eff_elab(case, f):
+    return case["elab"].get(str(code_rep(case, f)), ["none", None, True])
+
+
+def acyclic(case):
+    """The item graph (unwrap results incl. a generator's own frame, effective elaborate payloads) has
+    no cycle.  The rank order of gen_case does not cover the own frame of a generator object."""
+    edges = {}
+    for o, sp in case["unwrap"].items():
+        k = ("O", int(o))
+        if sp[0] == "one":
+            edges.setdefault(k, []).append(tuple(sp[1]))
+        elif sp[0] in ("seq", "iter"):
+            edges.setdefault(k, []).extend(tuple(i) for i in sp[1] if i)
+        elif sp[0] in ("gen", "gen2"):
+            tgt = sp[2] if sp[0] == "gen" else case["unwrap"][str(sp[2])][2]
+            edges.setdefault(k, []).append(("F", sp[1]))
+            if tgt:
+                edges[k].append(tuple(tgt))
+    for f in range(case["nf"]):
+        sp = eff_elab(case, f)
+        pl = [sp[1]] if sp[0] == "one" else (sp[1] if sp[0] == "seq" else [])
+        edges.setdefault(("F", f), []).extend(tuple(r[1]) for r in pl if r[0] == "I")
+    state = {}
+
+    def visit(k):
+        if state.get(k) == 1:
+            return False
+        if state.get(k) == 2:
+            return True
+        state[k] = 1
+        ok = all(visit(x) for x in edges.get(k, []))
+        state[k] = 2
+        return ok
+    return all(visit(k) for k in list(edges))
+
+
+def share_code(case, p_same=0.35, p_gen2=0.5):
+    """Post-processing of a generated case (own deterministic RNG, the caller's stream is untouched):
+    make two plain frames instances of one function, and a second generator instance of one generator
+    function.  The shared hook row is the row of the higher-ranked frame, so the table stays rank-ordered."""
+    import json
+    rng = random.Random(json.dumps(case, sort_keys=True))
+    nf = case["nf"]
+    plain = [f for f in range(nf) if case["frames"][str(f)] == ["plain"]]
+    used = set()
+    if len(plain) >= 2 and rng.random() < p_same:
+        f0, f = sorted(rng.sample(plain, 2))
+        case["frames"][str(f)] = ["samecode", f0]
+        if str(f) in case["elab"]:
+            case["elab"][str(f0)] = case["elab"][str(f)]
+        else:
+            case["elab"].pop(str(f0), None)
+        used |= {f0, f}
+    gens = sorted(int(o) for o, sp in case["unwrap"].items() if sp[0] == "gen")
+    if gens and rng.random() < p_gen2:
+        o1 = rng.choice(gens)
+        f1 = case["unwrap"][str(o1)][1]
+        cands_o = [o for o in range(o1) if case["unwrap"].get(str(o), ["none"])[0] not in ("gen", "gen2")]
+        cands_f = [f for f in range(nf) if case["frames"][str(f)] == ["plain"] and f not in used]
+        if cands_o and cands_f:
+            o2, f2 = rng.choice(cands_o), rng.choice(cands_f)
+            case["unwrap"][str(o2)] = ["gen2", f2, o1]
+            case["frames"][str(f2)] = ["genof", o2]
+            case["attr"][str(o2)] = {"wref": True}
+            hi = str(max(f1, f2))
+            if hi in case["elab"]:
+                case["elab"][str(f1)] = case["elab"][hi]
+            else:
+                case["elab"].pop(str(f1), None)
+            # let the delegation target of o1 unwrap to the RAW frame of the other instance: a frame that runs
+            # o1's code, is reached under origin o1, and is not o1's own frame (origin must stay None)
+            tgt = case["unwrap"][str(o1)][2]
+            if tgt and tgt[0] == "O" and rng.random() < 0.7:
+                tsp = case["unwrap"].get(str(tgt[1]), ["none"])
+                if tsp[0] in ("seq", "iter") and f2 > tgt[1]:
+                    tsp[1].insert(rng.randrange(len(tsp[1]) + 1), ["F", f2])
+    return case
+
+
 # ----------------------------------------------------------------- generation
 def gen_case(rng: random.Random, nf=5, no=5, *, faults=0, with_ctx=False, gens=False,
-             weird=True, mode="extract"):
+             weird=True, mode="extract", samecode=True, gen2=False):
     """Rank-ordered (acyclic) random tables; the last object may carry the linear self-loop."""
     def ritem(lo=-1, allow_frames=True):
         cands = [["O", i] for i in range(lo + 1, no)]
@@ -126,9 +224,12 @@ def gen_case(rng: random.Random, nf=5, no=5, *, faults=0, with_ctx=False, gens=F
                 cid += 1
             ctxs[str(f)] = ["ok", ids]
     fl = sorted(set(rng.randrange(0, 25) for _ in range(faults)))
-    return {"nf": nf, "no": no, "frames": frames, "unwrap": unwrap, "elab": elab, "attr": attr,
+    case = {"nf": nf, "no": no, "frames": frames, "unwrap": unwrap, "elab": elab, "attr": attr,
             "ctxs": ctxs, "fill": fill, "faults": fl, "with_ctx": with_ctx,
             "root": ritem(), "mode": mode}
+    # gen2 (a second instance of one generator function) is opt-in: oracles written for "gen" objects only
+    # (c05.acyclic, c16 origin ground truth) must know the "gen2" unwrap kind first
+    return share_code(case, p_gen2=(0.5 if gen2 else 0.0)) if samecode else case
 
 
 def chain_case(n, self_loop=False):
@@ -186,9 +287,9 @@ def gen_dense(rng: random.Random, nf=7, no=4):
             elab[str(f)] = ["one", ["N"], ph]
         else:
             elab[str(f)] = ["raise", None, ph]
-    return {"nf": nf, "no": no, "frames": {str(f): ["plain"] for f in range(nf)}, "unwrap": unwrap,
-            "elab": elab, "attr": {}, "ctxs": {}, "fill": {}, "faults": [], "with_ctx": False,
-            "root": ["O", 0], "mode": "extract"}
+    return share_code({"nf": nf, "no": no, "frames": {str(f): ["plain"] for f in range(nf)}, "unwrap": unwrap,
+                       "elab": elab, "attr": {}, "ctxs": {}, "fill": {}, "faults": [], "with_ctx": False,
+                       "root": ["O", 0], "mode": "extract"})
 
 
 def chain_mid_case(n1, n2, mid, end):
@@ -256,6 +357,7 @@ def run_impl(case):
     _CURRENT.clear()
     frames, codes = [None] * nf, [None] * nf
     classes, objs = [None] * no, [None] * no
+    genfuncs = {}
 
     def conv(it):
         return frames[it[1]] if it[0] == "F" else objs[it[1]]
@@ -263,10 +365,18 @@ def run_impl(case):
     # objects of higher rank first: generators delegate to already-built targets
     for o in reversed(range(no)):
         spec = case["unwrap"].get(str(o), ["none"])
-        if spec[0] == "gen":
+        if spec[0] == "gen2":
+            f_own, o1 = spec[1], spec[2]
+            g = genfuncs[o1]()          # second instance of the same generator function
+            next(g)
+            objs[o] = g
+            frames[f_own] = g.gi_frame
+            codes[f_own] = genfuncs[o1]
+            classes[o] = None
+        elif spec[0] == "gen":
             f_own, tgt = spec[1], spec[2]
             ns = {"TARGET": conv(tgt) if tgt else None}
-            hide = "    __tracebackhide__ = True\n" if case["elab"].get(str(f_own), ["none", None, True])[2] else ""
+            hide = "    __tracebackhide__ = True\n" if eff_elab(case, f_own)[2] else ""
             if tgt:
                 exec(f"def gen_{o}():\n{hide}    yield from TARGET\n", ns)
             else:
@@ -276,6 +386,7 @@ def run_impl(case):
             objs[o] = g
             frames[f_own] = g.gi_frame
             codes[f_own] = ns[f"gen_{o}"]
+            genfuncs[o] = ns[f"gen_{o}"]
             classes[o] = None
         else:
             wref = case["attr"].get(str(o), {}).get("wref", True)
@@ -283,8 +394,14 @@ def run_impl(case):
             objs[o] = classes[o]()
     for f in range(nf):
         if frames[f] is None:
+            kind = case["frames"].get(str(f), ["plain"])
+            if kind[0] == "samecode":
+                # a second live frame of the function of frame kind[1] (< f, already built): same code object
+                codes[f] = codes[kind[1]]
+                frames[f] = codes[f]()
+                continue
             ns = {}
-            hide = "    __tracebackhide__ = True\n" if case["elab"].get(str(f), ["none", None, True])[2] else ""
+            hide = "    __tracebackhide__ = True\n" if eff_elab(case, f)[2] else ""
             exec(f"import sys\ndef frame_{f}():\n{hide}    return sys._getframe(0)\n", ns)
             frames[f] = ns[f"frame_{f}"]()
             codes[f] = ns[f"frame_{f}"]
@@ -310,6 +427,8 @@ def run_impl(case):
                 raise Boom("unwrap", o)
             _CURRENT[classes[o]] = bad
     for f in range(nf):
+        if code_rep(case, f) != f:
+            continue  # one hook per code object: registered for the representative frame
         spec = case["elab"].get(str(f), ["none", None, True])
         if spec[0] == "none":
             continue  # default implementation: hides iff __tracebackhide__ is a local
@@ -317,7 +436,7 @@ def run_impl(case):
         def hook(frame, nxt, s=spec, f=f):
             frame.hide = bool(s[2])
             if s[0] == "raise":
-                raise Boom("elab", f)
+                raise Boom("elab", fid.get(id(frame.pyframe), 4999))   # the frame being elaborated, not the code's representative
 
             def one(r):
                 if r[0] == "N":
@@ -520,14 +639,15 @@ def c_cfg(case, guards="all_guards", uguard="100"):
             v = "(USeq " + clist(["None" if i is None else f"(Some {c_item(i)})" for i in s[1]]) + ")"
         elif s[0] == "iter":
             v = f"(UIter {clist([c_item(i) for i in s[1]])} {cbool(s[2])})"
-        elif s[0] == "gen":
-            v = "(USeq " + clist([f"(Some (IPy {s[1]}))", "None" if s[2] is None else f"(Some {c_item(s[2])})"]) + ")"
+        elif s[0] in ("gen", "gen2"):
+            tgt = s[2] if s[0] == "gen" else case["unwrap"][str(s[2])][2]
+            v = "(USeq " + clist([f"(Some (IPy {s[1]}))", "None" if tgt is None else f"(Some {c_item(tgt)})"]) + ")"
         else:
             v = "URaise"
         us.append(f"({o}, {v})")
     for o in range(case["no"]):
         s = case["unwrap"].get(str(o), ["none"])
-        if s[0] == "gen":
+        if s[0] in ("gen", "gen2"):
             at.append(f"({o}, Build_oattr true true (Some {s[1]}))")
         else:
             w = case["attr"].get(str(o), {}).get("wref", True)
@@ -536,7 +656,14 @@ def c_cfg(case, guards="all_guards", uguard="100"):
     def rit(r):
         return "RNext" if r[0] == "N" else ("RNone" if r[0] == "Z" else f"(RItem {c_item(r[1])})")
     es = []
-    for f, s in case["elab"].items():
+    # the hook table is keyed by code object: a frame that shares its code with another one gets the
+    # representative's row (frames remain distinct ids in the model)
+    rows = {}
+    for f in sorted(set(int(k) for k in case["elab"]) | set(range(case["nf"]))):
+        rep = code_rep(case, f) if f < case["nf"] else f
+        if str(rep) in case["elab"]:
+            rows[str(f)] = case["elab"][str(rep)]
+    for f, s in rows.items():
         if s[0] == "none":
             v = "ENone"
         elif s[0] == "seq":
